@@ -1,5 +1,7 @@
 """C05 — clones and separate instances are independent and deterministic.
 Ownership + effect closure: no shared / hidden / non-deterministic state is expressible."""
+import re
+
 import callees
 import grammar
 import ir
@@ -189,7 +191,63 @@ def s6_addr(F, S):
                 from_ptr = rv["from_ty"].startswith(("*", "&", "fn", "unsafe fn", "std::ptr::NonNull", "extern"))
                 if rv["kind"].startswith("PointerExposeProvenance") or (rv["kind"] == "Transmute" and to_int and from_ptr) or rv["kind"] == "PointerWithExposedProvenance":
                     S.bad("S6", "address-cast", f.label, "%s casts %s to %s (%s): an address can leak into a computation" % (f.label, rv["from_ty"], rv["ty"]["s"], rv["kind"]), loc(st["span"]))
-    S.ok("S6", "scan: %d casts, none exposes an address" % n)
+    # addresses can also leak through a comparison of two pointers (which of two objects lies lower in memory)
+    ncmp = 0
+    for f in F.fns:
+        if f.derived:
+            continue
+        for b in f.blocks:
+            for st in b["stmts"]:
+                if st["k"] == "assign" and st["rv"]["k"] == "binop" and st["rv"].get("op") in ("Lt", "Le", "Gt", "Ge", "Eq", "Ne", "Cmp"):
+                    ty = str(st["rv"].get("operand_ty", ""))
+                    if ty.startswith(("*const", "*mut")) or (ty.startswith("&") and st["rv"].get("op") in ("Lt", "Le", "Gt", "Ge", "Cmp")):
+                        ncmp += 1
+                        S.bad("S6", "address-compare", f.label, "%s compares two pointers (%s %s): the outcome depends on where objects happen to live" % (f.label, st["rv"]["op"], ty), loc(st["span"]))
+            t = b["term"]
+            if t["k"] == "call":
+                nm = callees.strip_all_turbofish(callees.callee_name(t["callee"]) or "")
+                if re.search(r"ptr::(eq|addr_eq|from_ref)$|<impl \*(const|mut) .*>::(addr|offset_from|is_null|cast|expose\w*)$|cmp::impls::<impl (std|core)::cmp::\w+(<.*>)? for \*(const|mut)", nm):
+                    S.bad("S6", "address-compare", "%s->%s" % (f.label, nm), "%s calls %s: addresses must not take part in a computation" % (f.label, nm), loc(t["span"]))
+    S.ok("S6", "scan: %d casts, none exposes an address; no pointer comparison" % n)
+
+
+ALLOWED_CFG = re.compile(r'^\s*(test|doc|doctest|feature\s*=\s*"serde"|not\(\s*test\s*\)|not\(\s*feature\s*=\s*"serde"\s*\))\s*$')
+
+
+def s7_cfg(repo_dir, S):
+    """conditional compilation: the analysis sees the configurations `default` and `serde` (debug profile).  Any other switch
+    (`debug_assertions`, target, an extra feature) would select code the analysis never looks at — the same source would behave
+    differently under another build, which no check here could notice."""
+    import os
+    n = 0
+    for root, dirs, files in os.walk(os.path.join(repo_dir, "src")):
+        dirs.sort()
+        for fn in sorted(files):
+            if not fn.endswith(".rs"):
+                continue
+            path = os.path.join(root, fn)
+            txt = open(path, encoding="utf-8", errors="replace").read()
+            # strip comments and string literals crudely but safely for this purpose (a `cfg` inside a string is not code)
+            code = re.sub(r'//[^\n]*|/\*.*?\*/|"(?:\\.|[^"\\])*"', lambda m: '""' if m.group(0).startswith('"') and "serde" not in m.group(0) else (m.group(0) if m.group(0).startswith('"') else ""), txt, flags=re.S)
+            for m in re.finditer(r'#!?\[\s*cfg\s*\(|cfg!\s*\(|#!?\[\s*cfg_attr\s*\(', code):
+                # balanced predicate
+                i = m.end()
+                depth, j = 1, i
+                while j < len(code) and depth:
+                    depth += code[j] == "("
+                    depth -= code[j] == ")"
+                    j += 1
+                pred = code[i:j - 1]
+                if "cfg_attr" in m.group(0):
+                    pred = pred.split(",", 1)[0]
+                n += 1
+                line = code.count("\n", 0, m.start()) + 1
+                rel = os.path.relpath(path, repo_dir)
+                if ALLOWED_CFG.match(pred):
+                    continue
+                S.bad("S7", "conditional-code", "%s:%s" % (rel, pred.strip()[:40]), "%s:%d: code selected by cfg(%s): the analysed configurations (default, serde; debug profile) do not cover every build of this source"
+                      % (rel, line, pred.strip()[:60]), "%s:%d" % (rel, line))
+    S.ok("S7", "scan: %d cfg predicates, all in {test, doc, feature = \"serde\"}" % n)
 
 
 RULES = [
@@ -219,6 +277,11 @@ def run(tier, repo=None, tag="repo"):
         for rid, text, floor, fn in RULES:
             rep.rule(rid, text, floor * (1 if rid not in ("S1",) else 1))
             fn(F, S)
+        if cfg == "default":
+            import os
+            from extract import REPO
+            rep.rule("S7", "conditional compilation only on test / doc / feature = \"serde\": every build of the source is one of the analysed configurations", 1)
+            s7_cfg(os.path.abspath(repo or REPO), S)
         rep.functions.update(f.path for f in F.fns)
     rep.configs = configs
     # structural floors counted on today's tree
